@@ -58,6 +58,7 @@ type sqValue struct {
 }
 
 type sqSite struct {
+	inst     bool        // produced by instantiating a parametric helper at a call site
 	fn       string
 	decl     *types.Func // enclosing top-level function
 	inLit    bool        // inside a function literal of decl
@@ -80,7 +81,18 @@ type sqWrapper struct {
 	undecided string
 }
 
+// sqBind: what a parameter of a parametric helper is bound to at one call site — a constant expression of the caller,
+// or a list of them (a variadic tail, a slice literal, a write-once package table).
+type sqBind struct {
+	scalar ast.Expr
+	list   []ast.Expr
+	isList bool
+}
+
 type sqEval struct {
+	env        map[*types.Var]sqBind
+	parametric map[*types.Func]*ast.FuncDecl
+	instDepth  int
 	lastCallSite map[*ast.CallExpr]int
 	pendingScans []*ast.CallExpr
 	pkg      *packages.Package
@@ -196,6 +208,11 @@ func (e *sqEval) evalStr(sc *sqScope, x ast.Expr) []sqSeg {
 		}
 	case *ast.Ident:
 		if obj := e.varOf(v); obj != nil {
+			if b, ok := e.env[obj]; ok && !b.isList {
+				if cv, ok := e.constStringOf(b.scalar); ok {
+					return []sqSeg{{kind: segConst, text: cv}}
+				}
+			}
 			if val := sc.lookup(obj); val != nil && val.isS {
 				return append([]sqSeg(nil), val.str...)
 			}
@@ -205,6 +222,22 @@ func (e *sqEval) evalStr(sc *sqScope, x ast.Expr) []sqSeg {
 			return []sqSeg{{kind: segOpaque, text: obj.Name()}}
 		}
 	case *ast.CallExpr:
+		// string(x) / T(x) of a string-typed operand
+		if tv, ok := e.info.Types[v.Fun]; ok && tv.IsType() && len(v.Args) == 1 && sqIsString(tv.Type) {
+			return e.evalStr(sc, v.Args[0])
+		}
+		// a placeholder list: strings.Repeat("?,", n)-style, directly or through a one-line helper of the package;
+		// with n = len(list bound at this instantiation) the list is known
+		if e.isPlaceholderCall(v) {
+			if n, ok := e.lenOfBoundList(v); ok {
+				ph := make([]string, n)
+				for i := range ph {
+					ph[i] = "?"
+				}
+				return []sqSeg{{kind: segConst, text: strings.Join(ph, ", ")}}
+			}
+			return []sqSeg{{kind: segOpaque, text: "placeholders"}}
+		}
 		if sel, ok := v.Fun.(*ast.SelectorExpr); ok {
 			// b.String()
 			if sel.Sel.Name == "String" && len(v.Args) == 0 {
@@ -251,7 +284,7 @@ func (e *sqEval) evalArgsExpr(sc *sqScope, x ast.Expr) ([]sqArg, bool) {
 	case *ast.CompositeLit:
 		var out []sqArg
 		for _, el := range v.Elts {
-			out = append(out, sqArg{kind: argExpr, expr: el})
+			out = append(out, sqArg{kind: argExpr, expr: e.substBound(el)})
 		}
 		return out, true
 	case *ast.CallExpr:
@@ -283,7 +316,7 @@ func (e *sqEval) evalArgsExpr(sc *sqScope, x ast.Expr) ([]sqArg, bool) {
 					return append(base, sp...), true
 				}
 				for _, a := range v.Args[1:] {
-					base = append(base, sqArg{kind: argExpr, expr: a})
+					base = append(base, sqArg{kind: argExpr, expr: e.substBound(a)})
 				}
 				return base, true
 			}
@@ -403,6 +436,15 @@ func (e *sqEval) evalStmt(sc *sqScope, st ast.Stmt, loop ast.Node) {
 		if s.Init != nil {
 			e.evalStmt(sc, s.Init, loop)
 		}
+		if taken, known := e.decideLenCond(s.Cond); known {
+			// a test on the length of a list that is known at this instantiation: only one arm exists here
+			if taken {
+				e.evalBlock(sc, s.Body.List, loop)
+			} else if s.Else != nil {
+				e.evalBlock(sc, sqElseList(s.Else), loop)
+			}
+			return
+		}
 		e.findCalls(sc, s.Cond)
 		e.branch(sc, s, [][]ast.Stmt{s.Body.List, sqElseList(s.Else)}, loop)
 	case *ast.SwitchStmt:
@@ -425,6 +467,27 @@ func (e *sqEval) evalStmt(sc *sqScope, st ast.Stmt, loop ast.Node) {
 	case *ast.ForStmt:
 		e.evalBlock(sc, s.Body.List, s)
 	case *ast.RangeStmt:
+		if id, ok := ast.Unparen(s.X).(*ast.Ident); ok {
+			if obj := e.varOf(id); obj != nil {
+				if b, bound := e.env[obj]; bound && b.isList {
+					// a loop over a list that is known at this instantiation: one pass per element
+					var lv *types.Var
+					if vid, ok := s.Value.(*ast.Ident); ok && vid.Name != "_" {
+						lv, _ = e.info.Defs[vid].(*types.Var)
+					}
+					for _, el := range b.list {
+						if lv != nil {
+							e.env[lv] = sqBind{scalar: el}
+						}
+						e.evalBlock(sc, s.Body.List, loop)
+					}
+					if lv != nil {
+						delete(e.env, lv)
+					}
+					return
+				}
+			}
+		}
 		e.findCalls(sc, s.X)
 		e.evalBlock(sc, s.Body.List, s)
 	case *ast.BlockStmt:
@@ -708,12 +771,36 @@ func (e *sqEval) sqlCall(sc *sqScope, ce *ast.CallExpr) {
 			args = a
 		} else {
 			for _, a := range ce.Args[2:] {
-				args = append(args, sqArg{kind: argExpr, expr: a})
+				args = append(args, sqArg{kind: argExpr, expr: e.substBound(a)})
 			}
 		}
 		d, lit := sc.declFunc()
 		e.sites = append(e.sites, sqSite{fn: sc.fn, decl: d, inLit: lit, pos: e.fset.Position(ce.Pos()), call: ce, query: q, args: args, recvKind: kind})
 		return
+	}
+	if hd, ok := e.parametric[fn]; ok && e.instDepth < 2 {
+		if env, ok := e.bindParametric(fn, hd, ce); ok {
+			// the helper's statement(s) as executed for this call: its body evaluated with the constant operands of
+			// the call bound to its parameters; the statements belong to the calling operation
+			saved := e.env
+			e.env = env
+			e.instDepth++
+			d, lit := sc.declFunc()
+			child := &sqScope{vars: map[*types.Var]*sqValue{}, fn: sc.fn, params: map[*types.Var]int{}, decl: d, lit: lit}
+			before := len(e.sites)
+			e.evalBlock(child, hd.Body.List, nil)
+			for i := before; i < len(e.sites); i++ {
+				e.sites[i].inst = true
+				e.sites[i].call = ce
+				e.sites[i].pos = e.fset.Position(ce.Pos())
+				e.sites[i].fn = sc.fn
+				e.sites[i].decl = d
+				e.sites[i].inLit = lit
+			}
+			e.instDepth--
+			e.env = saved
+			return
+		}
 	}
 	if w, ok := e.wrappers[fn]; ok && w.query != nil {
 		// instantiate sqWrapper summary at this call sqSite
@@ -770,6 +857,305 @@ func (e *sqEval) sqlCall(sc *sqScope, ce *ast.CallExpr) {
 		d, lit := sc.declFunc()
 		e.sites = append(e.sites, sqSite{fn: sc.fn, decl: d, inLit: lit, pos: e.fset.Position(ce.Pos()), call: ce, query: q, args: args, recvKind: "wrapper:" + fn.Name() + ":" + w.recvKind})
 	}
+}
+
+// constStringOf: the string value of a constant expression.
+func (e *sqEval) constStringOf(x ast.Expr) (string, bool) {
+	if tv, ok := e.info.Types[x]; ok && tv.Value != nil && tv.Value.Kind() == constant.String {
+		return constant.StringVal(tv.Value), true
+	}
+	return "", false
+}
+
+// substBound: an argument expression with the parameters bound at this instantiation replaced by their constants —
+// `to`, `string(to)`, `string(st)` become a literal carrying the constant (registered with the type information, so
+// every consumer that asks for the constant value of a bound argument finds it).
+func (e *sqEval) substBound(x ast.Expr) ast.Expr {
+	if len(e.env) == 0 {
+		return x
+	}
+	inner := ast.Unparen(x)
+	if ce, ok := inner.(*ast.CallExpr); ok && len(ce.Args) == 1 {
+		if tv, ok := e.info.Types[ce.Fun]; ok && tv.IsType() && sqIsString(tv.Type) {
+			inner = ast.Unparen(ce.Args[0])
+		}
+	}
+	id, ok := inner.(*ast.Ident)
+	if !ok {
+		return x
+	}
+	obj := e.varOf(id)
+	if obj == nil {
+		return x
+	}
+	b, bound := e.env[obj]
+	if !bound || b.isList {
+		return x
+	}
+	cv, ok := e.constStringOf(b.scalar)
+	if !ok {
+		return x
+	}
+	lit := &ast.BasicLit{ValuePos: x.Pos(), Kind: token.STRING, Value: fmt.Sprintf("%q", cv)}
+	e.info.Types[lit] = types.TypeAndValue{Type: types.Typ[types.String], Value: constant.MakeString(cv)}
+	return lit
+}
+
+// isPlaceholderCall: strings.Repeat/TrimRight/Join building a placeholder list, or a package function whose body is one
+// return of such a call.
+func (e *sqEval) isPlaceholderCall(v *ast.CallExpr) bool {
+	direct := func(c *ast.CallExpr) bool {
+		sel, ok := c.Fun.(*ast.SelectorExpr)
+		if !ok {
+			return false
+		}
+		id, ok := sel.X.(*ast.Ident)
+		if !ok {
+			return false
+		}
+		pn, ok := e.info.Uses[id].(*types.PkgName)
+		if !ok || pn.Imported().Path() != "strings" {
+			return false
+		}
+		switch sel.Sel.Name {
+		case "TrimRight", "Repeat", "Join", "TrimSuffix":
+			return true
+		}
+		return false
+	}
+	if direct(v) {
+		return true
+	}
+	fn := e.calleeFunc(v)
+	if fn == nil || fn.Pkg() != e.pkg.Types {
+		return false
+	}
+	if sig := fn.Type().(*types.Signature); sig.Results().Len() != 1 || !sqIsString(sig.Results().At(0).Type()) {
+		return false
+	}
+	for _, f := range e.pkg.Syntax {
+		for _, d := range f.Decls {
+			fd, ok := d.(*ast.FuncDecl)
+			if !ok || fd.Body == nil || e.info.Defs[fd.Name] != fn || len(fd.Body.List) != 1 {
+				continue
+			}
+			rs, ok := fd.Body.List[0].(*ast.ReturnStmt)
+			if !ok || len(rs.Results) != 1 {
+				return false
+			}
+			c, ok := ast.Unparen(rs.Results[0]).(*ast.CallExpr)
+			return ok && direct(c)
+		}
+	}
+	return false
+}
+
+// lenOfBoundList: the call's (innermost) len(X) operand names a list bound at this instantiation.
+func (e *sqEval) lenOfBoundList(v *ast.CallExpr) (int, bool) {
+	n, found := 0, false
+	ast.Inspect(v, func(x ast.Node) bool {
+		c, ok := x.(*ast.CallExpr)
+		if !ok || len(c.Args) != 1 {
+			return true
+		}
+		if id, ok := c.Fun.(*ast.Ident); ok && id.Name == "len" {
+			if aid, ok := ast.Unparen(c.Args[0]).(*ast.Ident); ok {
+				if obj := e.varOf(aid); obj != nil {
+					if b, bound := e.env[obj]; bound && b.isList {
+						n, found = len(b.list), true
+					}
+				}
+			}
+		}
+		return true
+	})
+	return n, found
+}
+
+// decideLenCond: `len(list) OP k` with the list bound at this instantiation.
+func (e *sqEval) decideLenCond(cond ast.Expr) (taken, known bool) {
+	be, ok := ast.Unparen(cond).(*ast.BinaryExpr)
+	if !ok || len(e.env) == 0 {
+		return false, false
+	}
+	lenOf := func(x ast.Expr) (int, bool) {
+		c, ok := ast.Unparen(x).(*ast.CallExpr)
+		if !ok || len(c.Args) != 1 {
+			return 0, false
+		}
+		id, ok := c.Fun.(*ast.Ident)
+		if !ok || id.Name != "len" {
+			return 0, false
+		}
+		aid, ok := ast.Unparen(c.Args[0]).(*ast.Ident)
+		if !ok {
+			return 0, false
+		}
+		obj := e.varOf(aid)
+		if obj == nil {
+			return 0, false
+		}
+		b, bound := e.env[obj]
+		if !bound || !b.isList {
+			return 0, false
+		}
+		return len(b.list), true
+	}
+	intOf := func(x ast.Expr) (int, bool) {
+		if tv, ok := e.info.Types[x]; ok && tv.Value != nil && tv.Value.Kind() == constant.Int {
+			v, exact := constant.Int64Val(tv.Value)
+			return int(v), exact
+		}
+		return 0, false
+	}
+	l, okL := lenOf(be.X)
+	r, okR := intOf(be.Y)
+	op := be.Op
+	if !okL || !okR {
+		// k OP len(list)
+		l2, okL2 := lenOf(be.Y)
+		r2, okR2 := intOf(be.X)
+		if !okL2 || !okR2 {
+			return false, false
+		}
+		l, r = l2, r2
+		switch op {
+		case token.LSS:
+			op = token.GTR
+		case token.LEQ:
+			op = token.GEQ
+		case token.GTR:
+			op = token.LSS
+		case token.GEQ:
+			op = token.LEQ
+		}
+	}
+	switch op {
+	case token.EQL:
+		return l == r, true
+	case token.NEQ:
+		return l != r, true
+	case token.LSS:
+		return l < r, true
+	case token.LEQ:
+		return l <= r, true
+	case token.GTR:
+		return l > r, true
+	case token.GEQ:
+		return l >= r, true
+	}
+	return false, false
+}
+
+// enumParam: a parameter whose type is a named string type (State, a column name type) — or a slice/variadic of one.
+func enumParam(t types.Type) (isList bool, ok bool) {
+	if sl, isSl := t.Underlying().(*types.Slice); isSl {
+		t = sl.Elem()
+		isList = true
+	}
+	n, isNamed := types.Unalias(t).(*types.Named)
+	if !isNamed || !sqIsString(n) {
+		return false, false
+	}
+	return isList, true
+}
+
+// constList: the constant elements of a list operand — a composite literal, or a package-level variable initialised
+// with one and never assigned again.
+func (e *sqEval) constList(x ast.Expr) ([]ast.Expr, bool) {
+	x = ast.Unparen(x)
+	if cl, ok := x.(*ast.CompositeLit); ok {
+		for _, el := range cl.Elts {
+			if _, ok := e.constStringOf(el); !ok {
+				return nil, false
+			}
+		}
+		return cl.Elts, true
+	}
+	if id, ok := x.(*ast.Ident); ok {
+		if obj, ok := e.info.Uses[id].(*types.Var); ok && obj.Parent() == e.pkg.Types.Scope() {
+			var init ast.Expr
+			writes := 0
+			for _, f := range e.pkg.Syntax {
+				ast.Inspect(f, func(n ast.Node) bool {
+					switch y := n.(type) {
+					case *ast.ValueSpec:
+						for i, nm := range y.Names {
+							if e.info.Defs[nm] == obj && i < len(y.Values) {
+								init = y.Values[i]
+							}
+						}
+					case *ast.AssignStmt:
+						for _, l := range y.Lhs {
+							if lid, ok := l.(*ast.Ident); ok && e.info.Uses[lid] == obj {
+								writes++
+							}
+						}
+					}
+					return true
+				})
+			}
+			if init != nil && writes == 0 {
+				return e.constList(init)
+			}
+		}
+	}
+	return nil, false
+}
+
+// bindParametric: the environment of one call of a parametric helper, if every enumerable parameter is bound to
+// constants there.
+func (e *sqEval) bindParametric(fn *types.Func, hd *ast.FuncDecl, ce *ast.CallExpr) (map[*types.Var]sqBind, bool) {
+	sig := fn.Type().(*types.Signature)
+	env := map[*types.Var]sqBind{}
+	idx := 0
+	var pvars []*types.Var
+	for _, f := range hd.Type.Params.List {
+		for _, n := range f.Names {
+			v, _ := e.info.Defs[n].(*types.Var)
+			pvars = append(pvars, v)
+		}
+		if len(f.Names) == 0 {
+			pvars = append(pvars, nil)
+		}
+	}
+	for ; idx < len(pvars); idx++ {
+		pv := pvars[idx]
+		if pv == nil {
+			continue
+		}
+		isList, ok := enumParam(pv.Type())
+		if !ok {
+			continue
+		}
+		if sig.Variadic() && idx == len(pvars)-1 && !ce.Ellipsis.IsValid() {
+			var elems []ast.Expr
+			for _, a := range ce.Args[min(idx, len(ce.Args)):] {
+				if _, ok := e.constStringOf(a); !ok {
+					return nil, false
+				}
+				elems = append(elems, a)
+			}
+			env[pv] = sqBind{list: elems, isList: true}
+			continue
+		}
+		if idx >= len(ce.Args) {
+			return nil, false
+		}
+		if isList {
+			elems, ok := e.constList(ce.Args[idx])
+			if !ok {
+				return nil, false
+			}
+			env[pv] = sqBind{list: elems, isList: true}
+			continue
+		}
+		if _, ok := e.constStringOf(ce.Args[idx]); !ok {
+			return nil, false
+		}
+		env[pv] = sqBind{scalar: ce.Args[idx]}
+	}
+	return env, len(env) > 0
 }
 
 // analyzeFunc evaluates one function declaration.
